@@ -30,10 +30,11 @@
    Modelled opcodes: all of Lang/Ssa.v — iadd uadd isub usub imult umult idiv
    udiv imod umod band bor bxor bclr, the 8 ordered comparisons, eq neq and or
    not mov smov lshift rshift srshift slice amov index phi concat bts btc,
-   builtin (circuits.Hamming, the only builtin ast/builtin.go emits), and ret.
-   NOT modelled: circ (native circuit files), the floating point opcodes (no
-   case in Program.Circuit either); gc is a no-op of Program.Circuit
-   ([Ounsupported] registers no wires and emits nothing).
+   builtin (circuits.Hamming, the only builtin ast/builtin.go emits), circ (the
+   embedding of a parsed native circuit: Lang/CircEmbed.v), and ret.
+   NOT modelled: the floating point opcodes (no case in Program.Circuit
+   either); gc is a no-op of Program.Circuit ([Ounsupported] registers no wires
+   and emits nothing).
    Errors/panics of the Go code (slice bounds from >= to, NewMUX width
    mismatch, a destination shorter than a copied range ...) have no
    counterpart: the monad is total; the executable predicate [cg_wf] below
@@ -43,7 +44,8 @@
    No proofs in this file. *)
 From Coq Require Import ZArith NArith List Bool Arith.
 From Mpc Require Import Gen.Thresholds Lang.Mini Lang.Ssa Builders.Emit Builders.Adder Builders.Sub
-  Builders.Mult Builders.Div Builders.Cmp Builders.Mux Builders.Index Builders.Bitwise Builders.Hamming.
+  Builders.Mult Builders.Div Builders.Cmp Builders.Mux Builders.Index Builders.Bitwise Builders.Hamming
+  Lang.CircEmbed.
 Import ListNotations.
 Open Scope monad_scope.
 Local Open Scope nat_scope.
@@ -154,6 +156,7 @@ Definition cg_body (i : instr) (ws : list (list wire)) : M (list wire) :=
   | Obtc => bld (bit_clr_test w0 (cst 1))
   | Ohamming => bld (hamming w0 w1)  (* instr.Builtin(cc, wires[0], wires[1], o) *)
   | Ounsupported => ret []
+  | Ocirc ins c => embed_circ ins ob c ws   (* case Circ: Lang/CircEmbed.v *)
   end.
 
 (* one step: operand wires, then the switch *)
@@ -212,8 +215,21 @@ Definition circuit_of_ssa_gen (tg : bool) (p : sprog) : ccirc :=
    narrower one is zero padded, also by NewIDivider) and for a destination
    narrower than the operands (ssagen types x / 5 by x, the literal sits in a
    32-bit container).
+   circ: the sub-circuit meets [circ_ok] (Circuit.wf, single assignment, inputs
+   and outputs disjoint), its input widths add up to its number of input wires,
+   the result has its number of output wires, no argument is wider than its input.
    NOT covered (cg_wf_instr = false): the opcodes Lang/Ssa.v does not model. *)
 Definition is_const (o : opnd) : bool := match o with OConst _ _ _ => true | _ => false end.
+
+(* circ: one argument per input of the sub-circuit, none wider than that input
+   (ast/builtin.go nativeCircuit rejects a wider argument; a narrower one must
+   be a constant there — the padding itself does not care) *)
+Fixpoint args_fit (a : list opnd) (ins : list nat) : bool :=
+  match a, ins with
+  | [], [] => true
+  | x :: ar, n :: nr => Nat.leb (opnd_bits x) n && args_fit ar nr
+  | _, _ => false
+  end.
 
 Definition cg_wf_instr (i : instr) : bool :=
   let a := i_args i in
@@ -252,6 +268,8 @@ Definition cg_wf_instr (i : instr) : bool :=
   | Obts | Obtc => nargs 2 && is_const (arg 1 a) && Nat.eqb ob 1
   | Ohamming => nargs 2 && Nat.leb 2 mx && Nat.leb 1 ob
   | Ounsupported => false
+  | Ocirc ins c =>
+      args_fit a ins && Nat.eqb (tot ins) (Circuit.ninputs c) && Nat.eqb ob (Circuit.noutputs c) && circ_ok c
   end.
 
 (* GMW target: NewUDivider dispatches to the Goldschmidt divider, which is not
